@@ -5,10 +5,10 @@ cd $WT || exit 9
 git diff --quiet && { echo "no change applied in $WT"; exit 9; }
 echo "--- tests with the change"; PYTHONPATH=$WT /venv/bin/python -m pytest -q -p no:cacheprovider 2>&1 | tail -2
 echo "--- demo with the change (must fail)"; PYTHONPATH=$WT /venv/bin/python $OUT/demo.py >/tmp/demo.out 2>&1; echo "exit=$?"; tail -3 /tmp/demo.out
-git stash -q
-echo "--- demo without the change (must pass)"; PYTHONPATH=$WT /venv/bin/python $OUT/demo.py >/tmp/demo.out 2>&1; echo "exit=$?"; tail -2 /tmp/demo.out
-git stash pop -q
 git diff > $OUT/patch.diff
+git apply -R $OUT/patch.diff
+echo "--- demo without the change (must pass)"; PYTHONPATH=$WT /venv/bin/python $OUT/demo.py >/tmp/demo.out 2>&1; echo "exit=$?"; tail -2 /tmp/demo.out
+git apply $OUT/patch.diff
 echo "--- check on /repo with the change applied"
 cd /repo && git apply $OUT/patch.diff || { echo "patch does not apply to /repo"; exit 8; }
 shift; [ -n "$SFX" ] && shift
